@@ -165,23 +165,32 @@ Definition scan (cur next : Z) (L : list fent) (st : wstate) : outcome scan_out 
                (if any_loadable L to_load then [after_load] else []) in
   Ok (mkOut to_drop to_load snaps (mkW ts after_load)).
 
-(** ---- correspondence runner *)
-Definition raw_ent := (list N * Z * N * bool)%type.               (* base name, mtime, content id, loadable *)
+(** ---- correspondence runner.
+    Compact case encoding: the base names occurring in a script are interned once per case ([names]) and
+    referred to by index; mtimes are offsets in ns from the case's [t0] (exact, no rounding). An index
+    outside the table makes the case a mismatch (no default hiding it: [step_wf]). *)
+Definition raw_ent := (N * N * N * bool)%type.               (* name index, mtime offset, content id, loadable *)
 Record c19step := mkStep {
   s_listing : list raw_ent;
   s_panicked : bool;                        (* scan panicked in Go *)
-  s_drop : list (list N);                   (* observed, as base names, any order *)
-  s_load : list (list N);
-  s_ts : list (list N * Z);                 (* DirectoryWatcher.timestamps after the scan *)
-  s_loaded : list (list N * N)              (* shards map after the scan: base name, content identity *)
+  s_drop : list N;                          (* observed, as name indexes, any order *)
+  s_load : list N;
+  s_ts : list (N * N);                      (* DirectoryWatcher.timestamps after the scan: name index, mtime offset *)
+  s_loaded : list (N * N)                   (* shards map after the scan: name index, content identity *)
 }.
 Inductive c19case :=
-| CScan (cur next : Z) (dir : list N) (steps : list c19step)
+| CScan (cur next : Z) (dir : list N) (t0 : Z) (names : list (list N)) (steps : list c19step)
 | CVfp (p : list N) (observed : option (list N * Z)).   (* None = versionFromPath panicked *)
 
 Definition full (dir : list N) (base : list N) : path := dir ++ [47%N] ++ base.
-Definition mk_ent (dir : list N) (r : raw_ent) : fent :=
-  let '(b, m, c, l) := r in mkF (full dir b) m c l.
+Definition step_wf (n : nat) (s : c19step) : bool :=
+  let ok := fun i : N => (N.to_nat i <? n) in
+  forallb (fun r : raw_ent => let '(i, _, _, _) := r in ok i) (s_listing s) &&
+  forallb ok (s_drop s) && forallb ok (s_load s) &&
+  forallb (fun kv => ok (fst kv)) (s_ts s) && forallb (fun kv => ok (fst kv)) (s_loaded s).
+Definition path_at (paths : list path) (i : N) : path := nth (N.to_nat i) paths [].   (* guarded by step_wf *)
+Definition mk_ent (paths : list path) (t0 : Z) (r : raw_ent) : fent :=
+  let '(i, m, c, l) := r in mkF (path_at paths i) (t0 + Z.of_N m)%Z c l.
 
 Definition subset_paths (a b : list path) : bool := forallb (fun x => existsb (path_eqb x) b) a.
 Definition same_paths (a b : list path) : bool := (length a =? length b) && subset_paths a b && subset_paths b a.
@@ -190,27 +199,28 @@ Definition same_map {V} (veq : V -> V -> bool) (a b : list (path * V)) : bool :=
   forallb (fun kv => match lookup (fst kv) b with Some v => veq (snd kv) v | None => false end) a &&
   forallb (fun kv => match lookup (fst kv) a with Some v => veq (snd kv) v | None => false end) b.
 
-Fixpoint run_steps (cur next : Z) (dir : list N) (st : wstate) (steps : list c19step) : bool :=
+Fixpoint run_steps (cur next : Z) (paths : list path) (t0 : Z) (st : wstate) (steps : list c19step) : bool :=
   match steps with
   | [] => true
   | s :: r =>
-      let L := map (mk_ent dir) (s_listing s) in
+      step_wf (length paths) s &&
+      let L := map (mk_ent paths t0) (s_listing s) in
       match scan cur next L st with
-      | Panic _ => s_panicked s && run_steps cur next dir st r   (* the Go harness keeps the previous state *)
+      | Panic _ => s_panicked s && run_steps cur next paths t0 st r   (* the Go harness keeps the previous state *)
       | Err _ => false
       | Ok o =>
           negb (s_panicked s) &&
-          same_paths (o_drop o) (map (full dir) (s_drop s)) &&
-          same_paths (o_load o) (map (full dir) (s_load s)) &&
-          same_map Z.eqb (w_ts (o_state o)) (map (fun kv => (full dir (fst kv), snd kv)) (s_ts s)) &&
-          same_map N.eqb (w_loaded (o_state o)) (map (fun kv => (full dir (fst kv), snd kv)) (s_loaded s)) &&
-          run_steps cur next dir (o_state o) r
+          same_paths (o_drop o) (map (path_at paths) (s_drop s)) &&
+          same_paths (o_load o) (map (path_at paths) (s_load s)) &&
+          same_map Z.eqb (w_ts (o_state o)) (map (fun kv => (path_at paths (fst kv), (t0 + Z.of_N (snd kv))%Z)) (s_ts s)) &&
+          same_map N.eqb (w_loaded (o_state o)) (map (fun kv => (path_at paths (fst kv), snd kv)) (s_loaded s)) &&
+          run_steps cur next paths t0 (o_state o) r
       end
   end.
 
 Definition c19_ok (c : c19case) : bool :=
   match c with
-  | CScan cur next dir steps => run_steps cur next dir w_init steps
+  | CScan cur next dir t0 names steps => run_steps cur next (map (full dir) names) t0 w_init steps
   | CVfp p obs =>
       match version_from_path p, obs with
       | Panic _, None => true
